@@ -70,6 +70,10 @@ func thoroughExtras(c *Ctx, cf commonFlags) []string {
 				}
 			}
 		}
+		if sw := runSweep(c, cf, runtime.NumCPU()); sw != nil && sw.Sites > 0 {
+			c.Extra["guard_flip_sweep"] = sw
+			cfgs = append(cfgs, fmt.Sprintf("guard-flip sweep: %d comparisons negated one at a time, %d reported by an obligation, %d variants did not compile, %d not reported (listed in coverage.guard_flip_sweep)", sw.Sites, sw.Detected, sw.NoCompile, len(sw.Undetected)))
+		}
 	}
 	return cfgs
 }
